@@ -86,6 +86,7 @@ struct Case<'a> {
 fn judge(acc: &mut Acc, c: &Case, delivery: &'static str, cfg: J, got: &Streams, twin_got: Option<&Streams>) {
     acc.res.evaluations += 1;
     *acc.by_delivery.entry(delivery).or_default() += 1;
+    acc.res.sample(|| J::obj(vec![("iface", J::s(c.iface.name)), ("message", J::s(esc(&c.bytes))), ("config", cfg.clone()), ("observed", J::strs(got.show()))]));
     let mut bad: Option<(String, String)> = None;
     if let Err(e) = check_streams(&c.expects, got) {
         let clause = if got.errs() > 0 { "spurious-error" } else if got.calls() < c.expects.iter().filter(|e| matches!(e, Expect::Call { .. })).count() { "unit-not-executed" } else { "payload-or-dispatch-differs" };
@@ -484,10 +485,12 @@ pub fn run(ctx: &Ctx) -> PropResult {
     res.cov("block_header_widths", J::Arr(w.into_iter().map(|x| J::Int(x as i64)).collect()));
     res.cov("read_boundaries_placed_at_payload_newlines", splits);
     res.cov("executions_by_delivery", J::Obj(by_delivery.into_iter().map(|(k, v)| (k.to_string(), J::Int(v as i64))).collect()));
-    res.samples = vec![
+    res.samples.truncate(5);
+    let described: Vec<J> = vec![
         J::s("A:B 5;A \"x\\ny\";B 7\\n via process, read boundary right after the payload newline"),
         J::s("P:BLK #3005ab\\ncd\\n via process byte-wise"),
     ];
+    res.samples.extend(described.into_iter().take(1));
     res.assumptions = vec!["strings are valid UTF-8 and do not contain their own enclosing quote; messages are otherwise valid".into()];
     if nlm == 0 || rel == 0 || bytes.len() < 256 {
         res.inconclusive = Some("payload coverage floor not reached".into());
